@@ -122,25 +122,33 @@ def mergePatch (k : PKey) (d : List Op) : List Op → Option (List Op)
           else (mergePatch k d rest).map (x :: ·)
       | _ => (mergePatch k d rest).map (x :: ·)
 
+/-- one step of the gathering loop of `combine_patches`: a patch entry is merged into the first patch entry with
+    the same key, anything else is appended -/
+def gatherStep (acc : List Op) (d : Op) : List Op :=
+  match d with
+  | .patchK k dd => match mergePatch (.s k) dd acc with
+      | some acc' => acc'
+      | none => acc ++ [d]
+  | .patchI i dd => match mergePatch (.i i) dd acc with
+      | some acc' => acc'
+      | none => acc ++ [d]
+  | _ => acc ++ [d]
+
+/-- canonicalise the sub-diff of a patch entry with `rec` -/
+def canonStep (rec : List Op → Except Err (List Op)) (d : Op) : Except Err Op :=
+  match d with
+  | .patchK k dd => do pure (.patchK k (← rec dd))
+  | .patchI i dd => do pure (.patchI i (← rec dd))
+  | d => pure d
+
 /-- `combine_patches`; fuel bounds the nesting depth of patch entries -/
 def combinePatches : Nat → List Op → Except Err (List Op)
   | 0, _ => .error .fuel
   | fuel + 1, diffs => do
       -- gather: one patch entry per key (at the position of its first occurrence)
-      let gathered := diffs.foldl (fun (acc : List Op) d =>
-        match d with
-        | .patchK k dd => match mergePatch (.s k) dd acc with
-            | some acc' => acc'
-            | none => acc ++ [d]
-        | .patchI i dd => match mergePatch (.i i) dd acc with
-            | some acc' => acc'
-            | none => acc ++ [d]
-        | _ => acc ++ [d]) []
+      let gathered := diffs.foldl gatherStep []
       -- canonicalise the collected sub-diffs
-      let canon ← gathered.mapM (fun d => match d with
-        | .patchK k dd => do pure (.patchK k (← combinePatches fuel dd))
-        | .patchI i dd => do pure (.patchI i (← combinePatches fuel dd))
-        | d => pure d)
+      let canon ← gathered.mapM (canonStep (combinePatches fuel))
       sortByKey canon
 
 def makeCleared : J → J
